@@ -1,6 +1,7 @@
 package main
 
 import (
+	"fmt"
 	"go/ast"
 	"go/token"
 	"go/types"
@@ -24,6 +25,9 @@ type pathFlow struct {
 	callFlow func(call *ast.CallExpr, f *pathFlow) (map[string]bool, bool)
 	// variables that stand for a set of addresses: range values over a literal list of &x expressions
 	aliases map[types.Object][]APath
+	// interprocedural summaries of package helpers (bounded depth), memoised per call and argument labels
+	depth   int
+	sumMemo map[string][]labelled
 }
 
 type labelled map[string]map[string]bool // remainder path -> labels
@@ -192,7 +196,16 @@ func (f *pathFlow) eval(e ast.Expr) labelled {
 		if _, static := c.callee(x).(*types.Func); !static {
 			out = union(out, flatten(f.eval(x.Fun)))
 		}
-		return whole(out)
+		res := whole(out)
+		// a package helper that builds and returns a value: which of its parts it fills from what
+		if rs := f.calleeResults(x); len(rs) > 0 {
+			for rem, ls := range rs[0] {
+				if rem != "" {
+					res[rem] = union(res[rem], ls)
+				}
+			}
+		}
+		return res
 	case *ast.FuncLit:
 		// the value of a closure stands for what calling it yields: the labels of its returned values,
 		// evaluated in the facts of the enclosing function (it captures by reference)
@@ -398,8 +411,21 @@ func (f *pathFlow) visitStmt(n ast.Node) bool {
 			}
 		} else if len(s.Rhs) == 1 {
 			v := whole(flatten(f.eval(s.Rhs[0])))
-			for _, l := range s.Lhs {
+			var rs []labelled
+			if call, ok := unparen(s.Rhs[0]).(*ast.CallExpr); ok && !f.precise {
+				rs = f.calleeResults(call)
+			}
+			for i, l := range s.Lhs {
 				f.assignExpr(l, v)
+				if i < len(rs) {
+					part := labelled{}
+					for rem, ls := range rs[i] {
+						if rem != "" {
+							part[rem] = ls
+						}
+					}
+					f.assignExpr(l, part)
+				}
 			}
 		}
 	case *ast.ValueSpec:
@@ -516,6 +542,95 @@ func (f *pathFlow) condLabels(e ast.Expr) map[string]bool {
 		}
 		return true
 	})
+	return out
+}
+
+// calleeResults summarises a call of a package function with a body: the structured labels of each of its
+// results when its parameters (and receiver) carry what the arguments carry here. Bounded depth; nil when
+// the callee is not a package function.
+func (f *pathFlow) calleeResults(call *ast.CallExpr) []labelled {
+	c := f.c
+	if f.precise || f.depth >= 2 || c.isConversion(call) {
+		return nil
+	}
+	g, _ := c.callee(call).(*types.Func)
+	if g == nil || g.Pkg() != c.Types {
+		return nil
+	}
+	gfd := c.decl(g)
+	if gfd == nil || gfd.Body == nil || gfd == f.fd {
+		return nil
+	}
+	sig := g.Type().(*types.Signature)
+	if sig.Results().Len() == 0 {
+		return nil
+	}
+	structured := false
+	for i := 0; i < sig.Results().Len(); i++ {
+		if isStruct(derefType(sig.Results().At(i).Type())) {
+			structured = true
+		}
+	}
+	if !structured {
+		return nil
+	}
+	args := make([]map[string]bool, len(call.Args))
+	key := fmt.Sprintf("%d", call.Pos())
+	for i, a := range call.Args {
+		args[i] = flatten(f.eval(a))
+		key += "|" + strings.Join(sortedSet(args[i]), ",")
+	}
+	var recvLabels map[string]bool
+	if se, ok := unparen(call.Fun).(*ast.SelectorExpr); ok {
+		if sel := c.Info.Selections[se]; sel != nil && sel.Kind() == types.MethodVal {
+			recvLabels = flatten(f.evalMethodRecv(se, sel))
+			key += "|r:" + strings.Join(sortedSet(recvLabels), ",")
+		}
+	}
+	if f.sumMemo == nil {
+		f.sumMemo = map[string][]labelled{}
+	}
+	if r, ok := f.sumMemo[key]; ok {
+		return r
+	}
+	f.sumMemo[key] = nil // recursion guard
+	sub := newPathFlow(c, gfd)
+	sub.depth = f.depth + 1
+	for i := range call.Args {
+		if po := c.paramObj(gfd, i); po != nil && len(args[i]) > 0 {
+			sub.assignTo(APath{Root: po}, whole(args[i]))
+		}
+	}
+	if ro := c.recvObj(gfd); ro != nil && len(recvLabels) > 0 {
+		sub.assignTo(APath{Root: ro}, whole(recvLabels))
+	}
+	sub.run()
+	out := make([]labelled, sig.Results().Len())
+	for i := range out {
+		out[i] = labelled{}
+	}
+	ast.Inspect(gfd.Body, func(n ast.Node) bool {
+		switch x := n.(type) {
+		case *ast.FuncLit:
+			return false
+		case *ast.ReturnStmt:
+			for i := range out {
+				var v labelled
+				if i < len(x.Results) && len(x.Results) == len(out) {
+					v = sub.eval(x.Results[i])
+				} else if len(x.Results) == 0 {
+					if ro := c.namedResult(gfd, i); ro != nil {
+						v = sub.evalPath(APath{Root: ro})
+					}
+				}
+				for rem, ls := range v {
+					out[i][rem] = union(out[i][rem], ls)
+				}
+			}
+		}
+		return true
+	})
+	f.sumMemo[key] = out
 	return out
 }
 
